@@ -83,7 +83,7 @@ pub open spec fn all_alloc(h: Heap) -> bool { h.alloc_i && h.alloc_interval_clea
 #[verifier::external_body] pub fn fresh_heap() -> (h: Heap) ensures none_alloc(h) { unimplemented!() }
 
 //@invpart seq @C16 the numbers delivered are 0, 1, 2, .. in order; the counter is the number delivered
-//@invpart proto @C01 greeting, disposal flag and spawn outcome agree
+//@invpart proto @C01,C16 greeting, disposal flag and spawn outcome agree (a sink is greeted only once its task was accepted)
 //@invpart term @C02 at most one terminating message (only the spawn-failure Error)
 pub open spec fn inv_seq(h: Heap, g: G, c: Cap) -> bool {
     &&& h.i == g.dn.data.len()
